@@ -30,7 +30,15 @@ class ShimRewriter {
     throw new Error('native rewriter failure: ' + JSON.stringify(resp).slice(0, 300))
   }
 
-  csiMethods () { return [] }
+  // what the native Rewriter#csiMethods answers: the replacement (dst) names of the configuration, from the real to_config
+  csiMethods () {
+    if (this._csi === undefined) {
+      const input = JSON.stringify({ op: 'new', rw: 'r', config: this.config === undefined ? null : this.config }) + '\n'
+      const r = spawnSync(binPath('release'), [], { input, maxBuffer: 1 << 24, timeout: 60000 })
+      try { this._csi = JSON.parse((r.stdout ? r.stdout.toString('utf8') : '').split('\n')[0]).ok.csi || [] } catch (e) { this._csi = [] }
+    }
+    return this._csi.slice()
+  }
   setLogger () {}
 }
 
@@ -59,4 +67,4 @@ function compileAs (content, filename) {
   return m.exports
 }
 
-module.exports = { loadPackage, compileAs, state, MiniLRU }
+module.exports = { loadPackage, compileAs, state, MiniLRU, ShimRewriter }
